@@ -876,6 +876,10 @@ def str_method(ex, s, name, e):
         raise Unsupported('str.format')
     if name == 'split' and len(args) == 1:
         raise Unsupported('str.split')
+    if not hasattr(str, name):
+        # not a str method at all: the receiver must not be a str here (AttributeError otherwise)
+        ex.safe(z3.BoolVal(False), 'AttributeError', 'str has no attribute %s' % name, e)
+        raise Unsupported('unreachable')
     raise Unsupported('str.%s' % name)
 
 
